@@ -11,7 +11,7 @@ from harness import gen_values as gv
 from harness import valcodec as vc
 
 STREAMS = ['codec-valid', 'codec-small-types', 'codec-malformed-values', 'codec-malformed-data']
-THEOREMS = ['Spec.decode_encode', 'C01_roundtrip']
+THEOREMS = ['Spec.decode_encode', 'C01_roundtrip', 'C01_roundtrip_valid']
 TRUSTED_BASE = [
     "CPython struct.pack/unpack_from, codecs utf-8/ascii, dict, zip/generators, int->float conversion: mirrored in "
     "Wire/Code.lean (pack, unpackFrom, utf8*, buildDict, marshalSeq, intToDouble), validated by the streams, not proved",
@@ -380,7 +380,7 @@ def run(ctx):
         replay_case(ctx, case, 'corpus:' + name)
 
     # ---- stream A: valid cases
-    n = ctx.scale(quick=1500, thorough=30000)
+    n = ctx.scale(quick=1000, thorough=30000)
     mbatch, ubatch = [], []
     for _ in range(n):
         tys, svs, pvs, fds, expected = gv.gen_case(rng, depth=rng.choice([1, 2, 3, 3, 4]), max_n=4)
@@ -404,7 +404,7 @@ def run(ctx):
     check_unmarshal_batch(ctx, 'codec-small-types', ubatch)
 
     # ---- stream B: malformed values for marshal
-    n = ctx.scale(quick=1500, thorough=20000)
+    n = ctx.scale(quick=1200, thorough=20000)
     batch = []
     for _ in range(n):
         sig, values, off, le, fdarg, kind = gen_malformed_marshal(rng, pool)
@@ -421,7 +421,7 @@ def run(ctx):
     check_marshal_batch(ctx, 'codec-malformed-values', batch)
 
     # ---- stream C: malformed data for unmarshal
-    n = ctx.scale(quick=1500, thorough=20000)
+    n = ctx.scale(quick=1200, thorough=20000)
     batch = []
     for _ in range(n):
         sig, data, off, le, fdarg, kind = gen_malformed_data(rng, pool)
